@@ -2,6 +2,7 @@ package main
 
 import (
 	"fmt"
+	"strings"
 )
 
 func flatCase(id int, class string, cfg cfgT, raw []byte, chunks []int) *caseT {
@@ -106,7 +107,7 @@ func runC01(c *runCfg) error {
 	emit("corpus", "pw", startups[0], mPassword([]byte("bad")), conts[2], 1)
 	emit("corpus", "pw", startups[0], mPassword([]byte("secret")), conts[1], 0)
 	// enumeration
-	for _, auth := range []string{"pw", "accept", "reject", "fail"} {
+	for _, auth := range []string{"pw", "accept", "reject", "fail", "failtrue"} {
 		for si, su := range startups {
 			for pi, pw := range pwVariants(64) {
 				for ci, cont := range conts {
@@ -137,7 +138,7 @@ func runC01(c *runCfg) error {
 				pw[j] = 'x'
 			}
 		}
-		auth := g.pick("pw", "accept", "reject", "fail")
+		auth := g.pick("pw", "accept", "reject", "fail", "failtrue")
 		p := mPassword(pw)
 		if g.chance(0.3) {
 			p = mPassword([]byte("secret"))
@@ -222,6 +223,12 @@ func runC12(c *runCfg) error {
 		emit("ssl_n", cfg, cat(sslRequest(), startupMsg("user", "u"), cont), nil)
 		emit("ssl_n_cancel", cfg, cat(sslRequest(), cancelRequest(), cont), nil)
 		emit("ssl_n_ssl", cfg, cat(sslRequest(), sslRequest(), startupMsg("user", "u"), cont), nil)
+		// long parameter values: the pairs arrive intact whatever the packet size (within the limit)
+		for _, n := range []int{200, 4096, 10001, 70000} {
+			big := cfg
+			big.limit = 0
+			emit("long_value", big, cat(startupMsg("user", "u", "options", strings.Repeat("-c a=b ", n/7), "application_name", "x"), cont), nil)
+		}
 		emit("short", cfg, []byte{0, 0, 0, 8, 0}, nil)
 		emit("short", cfg, untypedMsg([]byte{0, 3}), nil)
 		emit("badlen", cfg, cat(be32b(3), cont), nil)
@@ -365,6 +372,38 @@ func runC10(c *runCfg) error {
 		acfg.auth = "accept"
 		emitSession(c, flatCase(id, "auth", acfg, cat(stdStartup, msg('p', make([]byte, L+31)), mSync()), nil))
 		id++
+	}
+	// the startup packet obeys the same limit: bodies up to the limit are served whatever their size
+	// (typical hard-coded caps: 4096, 8192, 10000, 16384, 65536), above it the connection ends
+	for _, L := range []int{0, -1, 12000, 65536, 200000} {
+		cfg := simpleCfg(L)
+		eff := L
+		if eff <= 0 {
+			eff = 1 << 24
+		}
+		sizes := []int{4000, 4097, 8193, 10000, 10001, 16385, 65535, 65537, 131073}
+		for _, n := range sizes {
+			if n > eff+1000 {
+				continue
+			}
+			// version + "user\0u\0options\0<pad>\0" + terminator = n bytes of body
+			pad := n - (4 + 5 + 2 + 8 + 1 + 1)
+			if pad < 0 {
+				continue
+			}
+			su := startupMsg("user", "u", "options", strings.Repeat("o", pad))
+			emitSession(c, lockCase(id, "startup_size", cfg, su, [][]byte{mQuery([]byte("select 1")), mTerminate()}))
+			id++
+		}
+		for _, n := range []int{eff - 1, eff, eff + 1} {
+			if n > 300000 {
+				continue
+			}
+			pad := n - (4 + 5 + 2 + 8 + 1 + 1)
+			su := startupMsg("user", "u", "options", strings.Repeat("o", pad))
+			emitSession(c, lockCase(id, "startup_limit", cfg, su, [][]byte{mQuery([]byte("select 1")), mTerminate()}))
+			id++
+		}
 	}
 	if c.tier == "thorough" {
 		// default limit (non-positive setting): 16 MiB
